@@ -125,6 +125,9 @@ def build_inputs(ws, cls, n_inputs, rng, rec):
     from geoh5py.objects import Curve, DrapeModel, Points, Surface
 
     inputs, spec = [], {"inputs": [], "data_names": set()}
+    closed_loops = cls == "Curve" and rng.random() < 0.25  # every input a closed loop: the merged curve has as many cells as vertices
+    if closed_loops:
+        rec.see("closed-loop-cases")
     names = ["alpha", "beta", "gamma"]
     for k in range(n_inputs):
         s = {}
@@ -146,9 +149,11 @@ def build_inputs(ws, cls, n_inputs, rng, rec):
             style = None
             cells = None
             if cls == "Curve":
-                style = rng.choice(["path", "skip-last", "gaps", "unordered"])
+                style = "closed" if closed_loops else rng.choice(["path", "skip-last", "gaps", "unordered"])
                 segs = [[i, i + 1] for i in range(n - 1)]
-                if style == "skip-last":
+                if style == "closed":
+                    segs.append([n - 1, 0])
+                elif style == "skip-last":
                     segs = segs[:-1] if len(segs) > 1 else segs
                 elif style == "gaps":
                     segs = [sg for sg in segs if rng.random() < 0.6] or [[0, 1]]
